@@ -73,8 +73,12 @@ def snapshot(root, Wire):
                 attrs[k] = v
             elif isinstance(v, (list, tuple)) and all(isinstance(x, (int, str, bool)) for x in v):
                 attrs[k] = tuple(v)
-            elif isinstance(v, dict) and all(isinstance(x, (int, str)) for x in v.values()):
-                attrs[k] = tuple(sorted(v.items()))
+            elif isinstance(v, dict):
+                # contents, not only identity: values that are objects (a Parameter reference, an emitter) by type and identity
+                attrs[k] = tuple(sorted((str(kk), vv if isinstance(vv, (int, str, bool, float, type(None))) else ('obj', type(vv).__name__, id(vv)))
+                                        for kk, vv in v.items()))
+            elif isinstance(v, list):
+                attrs[k] = tuple(x if isinstance(x, (int, str, bool, float, type(None))) else ('obj', type(x).__name__, id(x)) for x in v)
             else:
                 attrs[k] = ('obj', type(v).__name__, id(v))
         ports = tuple((type(p).__name__, p.name, wire_state(p.wire), id(p.wire)) for p in list(o.inPorts) + list(o.outPorts) + list(o.inOutPorts))
@@ -126,6 +130,28 @@ class Circuit:
                     walk(c, path + '/' + n)
         walk(self.live.dut, '')
         return out
+
+
+def add_param_block(design):
+    """A structural block that hands its own parameter down to a library block (the child's parameter is a reference to the parent's)."""
+    import py4hw
+    hw, dut = design.hw, design.dut
+    src = design.ins[0] if design.ins else design.outs[0]
+    w = src.getWidth()
+    o = hw.wire('pshift', w)
+
+    class PShift(py4hw.Logic):
+        def __init__(self, parent, name, a, r, n):
+            super().__init__(parent, name)
+            self.addIn('a', a)
+            self.addOut('r', r)
+            self.addParameter('n', n)
+            t = self.wire('t', a.getWidth())
+            py4hw.ShiftLeftConstant(self, 'sl', a, self.getParameter('n'), t)
+            py4hw.ShiftRightConstant(self, 'sr', t, self.getParameter('n'), r)
+    PShift(dut, 'pshift', src, o, 1 + w % 3)
+    dut.addOut(o.name, o)
+    design.outs.append(o)
 
 
 def add_block(design, k):
@@ -187,6 +213,11 @@ def run_history(run, seed, idx, n_ops, case_sink):
         plans.append(plan)
         try:
             circuits.append(Circuit(plan))
+            if idx % 5 == 2:
+                with muted():
+                    add_param_block(circuits[-1].live)
+                    add_param_block(circuits[-1].twin)
+                run.count('circuits_with_forwarded_parameters')
         except Exception:
             run.count('build_failed')
             return
